@@ -75,6 +75,55 @@ def World.pluginActive (w : World) (name : String) : Option Bool :=
   let v := w.get ("PLUGIN_" ++ name)
   if v.isNone then some true else str2bool v
 
+/-! ### use sites: what the consumer of each documented setting makes of the resolved value -/
+
+inductive Use
+  | text (s : String)             -- used as the text it is (channel target, file name, class path, root prefix)
+  | unset                         -- the consumer's "not configured" branch
+  | flag (b : Bool)               -- `str2bool(value)`
+  | seconds (d : Dec)             -- `float(value)` in RepeatedTimer
+  | prefixes (ps : List String)   -- iterated by is_app_frame
+  | fails                         -- the consumer raises (or its thread dies)
+  | unmodelled                    -- a value of a type the use-site model does not read (numbers as file names …)
+deriving Repr, DecidableEq
+
+/-- what the consumer of setting `k` computes from its resolved value: GRPCService (SERVICE_URL: channel target,
+    SERVICE_SECURE: `str2bool`), `logging.init` (LOGGING_CONF: falsy = built-in file), RepeatedTimer via LongPoll.start
+    (POLL_TIMER: `float()`), `AuthProvider.get_provider` (SERVICE_AUTH_PROVIDER: `None`/"" = no provider),
+    `is_app_frame` (IN_APP_INCLUDE / IN_APP_EXCLUDE iterated, APP_ROOT a `startswith` argument).
+    `none` = the setting has no use-site model here. -/
+def useOf : String → CVal → Option Use
+  | "SERVICE_URL", v => some (match v with
+      | .str s => .text s
+      | _ => .unmodelled)
+  | "SERVICE_SECURE", v => some (match str2bool v with
+      | some b => .flag b
+      | none => .fails)
+  | "LOGGING_CONF", v => some (match v with
+      | .none => .unset
+      | .str s => if s == "" then .unset else .text s
+      | _ => .unmodelled)
+  | "POLL_TIMER", v => some (match pollInterval v with
+      | some d => .seconds d
+      | none => .fails)
+  | "SERVICE_AUTH_PROVIDER", v => some (match v with
+      | .none => .unset
+      | .str s => if s == "" then .unset else .text s
+      | _ => .unmodelled)
+  | "IN_APP_INCLUDE", v => some (match pathList v with
+      | some ps => .prefixes ps
+      | none => .fails)
+  | "IN_APP_EXCLUDE", v => some (match pathList v with
+      | some ps => .prefixes ps
+      | none => .fails)
+  | "APP_ROOT", v => some (match v with
+      | .str s => .text s
+      | _ => .fails)
+  | _, _ => none
+
+/-- setting `k` as its consumer sees it in world `w` -/
+def World.use (w : World) (k : String) : Option Use := useOf k (w.get k)
+
 /-! ### the statement, written independently of the code -/
 
 /-- application frame per the property text: under no exclude prefix, and under an include prefix or the root -/
